@@ -1,6 +1,12 @@
-"""Apply a seeded change to /repo, run checks against it, undo it (python -m engine.seedtest <seed-dir> C07 [C01 ...])."""
+"""Run checks against a seeded change (python -m engine.seedtest <seed-dir> C07 [C01 ...]).
+
+Default: a scratch worktree of /repo's HEAD gets the patch and the checks import graphiq from it (VERIF_REPO), with
+evidence and replays redirected to a scratch directory (VERIF_OUT) - /repo and /verif/evidence are not touched, so several
+seeds can be tried at once.  With SEED_INPLACE=1 the patch is applied to /repo itself (git apply ... git checkout -- .),
+exactly as an outside evaluator would do it; evidence is then rewritten by the seeded run and must be refreshed after."""
 import json
 import os
+import shutil
 import subprocess
 import sys
 import time
@@ -16,29 +22,45 @@ def main():
     seed_dir = os.path.abspath(sys.argv[1])
     pids = sys.argv[2:]
     tier = os.environ.get("SEED_TIER", "quick")
+    inplace = os.environ.get("SEED_INPLACE") == "1"
     patch = os.path.join(seed_dir, "patch.diff")
-    assert sh("git -C /repo status --porcelain --untracked-files=no").stdout.strip() == "", "/repo not clean"
-    r = sh(f"git -C /repo apply {patch}")
-    if r.returncode != 0:
-        print("patch does not apply:", r.stderr)
-        return 2
+    name = os.path.basename(seed_dir)
+    env = dict(os.environ)
+    if inplace:
+        tree = "/repo"
+        assert sh("git -C /repo status --porcelain --untracked-files=no").stdout.strip() == "", "/repo not clean"
+    else:
+        tree = f"/tmp/seedwt-{name}-{os.getpid()}"
+        out = f"/tmp/seedout-{name}-{os.getpid()}"
+        r = sh(f"git -C /repo worktree add -q --detach {tree} HEAD")
+        assert r.returncode == 0, r.stderr
+        os.makedirs(out, exist_ok=True)
+        env.update({"VERIF_REPO": tree, "VERIF_OUT": out})
     results = {}
     try:
+        r = sh(f"git -C {tree} apply {patch}")
+        if r.returncode != 0:
+            print("patch does not apply:", r.stderr)
+            return 2
         for pid in pids:
             t0 = time.time()
-            p = sh(f"cd {VERIF} && /venv/bin/python -m engine.check {pid} --tier {tier}", timeout=7200)
+            p = sh(f"cd {VERIF} && /venv/bin/python -m engine.check {pid} --tier {tier}", timeout=7200, env=env)
             viol = [l for l in p.stdout.splitlines() if l.startswith("VIOLATION")]
             results[pid] = {"exit": p.returncode, "violations": len(viol), "first": viol[:2],
                             "wall_s": round(time.time() - t0)}
-            print(pid, "exit", p.returncode, "violations", len(viol), viol[0][:260] if viol else "", flush=True)
+            print(name, pid, "exit", p.returncode, "violations", len(viol), viol[0][:260] if viol else "", flush=True)
             if p.returncode == 2:
                 print(p.stderr[-1500:])
     finally:
-        sh("git -C /repo checkout -- .")
-    out = os.path.join(seed_dir, "detection.json")
-    old = json.load(open(out)) if os.path.exists(out) else {}
+        if inplace:
+            sh("git -C /repo checkout -- .")
+        else:
+            sh(f"git -C /repo worktree remove --force {tree}")
+            shutil.rmtree(out, ignore_errors=True)
+    outp = os.path.join(seed_dir, "detection.json")
+    old = json.load(open(outp)) if os.path.exists(outp) else {}
     old.update({f"{k}:{tier}": v for k, v in results.items()})
-    json.dump(old, open(out, "w"), indent=1)
+    json.dump(old, open(outp, "w"), indent=1)
     return 0
 
 
